@@ -206,6 +206,9 @@ def rule_d(ctx):
     from . import c02, bcast
     c02.rule_b(ctx)
     bcast.fanout_rules(ctx, "output")
+    # the broadcast that carries the event completes (polling discipline, slot hand-over): otherwise later events of that output never leave
+    bcast.poll_rules(ctx, "output")
+    bcast.output_slot_rules(ctx)
 
 RULES = [
     ("C17.d", "port sends are awaited in place; fan-out visits each connection once per send", rule_d),
